@@ -35,9 +35,17 @@ JudgeRead(s, e) ==
       selx == Selected(f, e, s.tmax, FALSE)      \* the same without the messages at 2^64-1 when no end was given
       ids == e.ids
       indexed == e.mode \in {"default", "index"}
-      P == IF Filtered(e) THEN "C04" ELSE IF Ordered(e) THEN "C03" ELSE IF indexed THEN "C02" ELSE "C01" IN
+      P == IF Filtered(e) THEN "C04" ELSE IF Ordered(e) THEN "C03" ELSE IF indexed THEN "C02" ELSE "C01"
+      \* Reader sessions (ReaderSession.tla): the operation was not the first one on its Reader, and it reads without the
+      \* index (explicitly, or by falling back): as coded it starts where the stream was left and returns a suffix
+      moved == "moved" \in DOMAIN e /\ e.moved
+      scanlike == e.mode = "scan" \/ (indexed /\ ~Indexable(f) /\ ~Ordered(e))
+      IsSuffixOf(full) == \E p \in 1 .. Len(full) : ids = SubSeq(full, p + 1, Len(full))       \* a proper suffix
+  IN
   IF ~LegalWindow(e) THEN {}
   ELSE IF Ended(e) = "panic" THEN {"C10/Panic/Messages"}
+  \* ... or fails on a record whose definition lies before that point (the same reads are judged on fresh Readers too)
+  ELSE IF moved /\ scanlike /\ Ended(e) = "error" THEN {P \o "/Session/StreamNotRewound"}
   ELSE IF Ended(e) \in {"error", "openerror"} THEN
        (IF indexed /\ ~Indexable(f) /\ (Ordered(e) \/ Ended(e) = "error") THEN {}       \* C02: falling back or failing is allowed when the summary lacks the index
         ELSE {P \o "/UnexpectedError"})
@@ -45,6 +53,7 @@ JudgeRead(s, e) ==
      no longer finds what the scan finds (C02), whatever the order or filter *)
   ELSE IF ~ValidIds(f, ids) THEN {P \o "/ForeignMessage"} \cup (IF indexed THEN {"C02/ForeignMessage"} ELSE {})
   ELSE IF e.inexact # 0 THEN {P \o "/AlteredContent"} \cup (IF indexed THEN {"C02/AlteredContent"} ELSE {})
+  ELSE IF moved /\ scanlike /\ Ended(e) = "eof" /\ (IsSuffixOf(Mids(sel)) \/ IsSuffixOf(Mids(selx))) THEN {P \o "/Session/StreamNotRewound"}
   ELSE LET member == IF ExactlyOnce(ids, sel) THEN {}
                      ELSE IF ExactlyOnce(ids, selx) THEN {P \o "/Selection/LogTimeMaxNotReturned"}
                      ELSE IF Len(ids) < Len(sel) /\ \A i, j \in DOMAIN ids : ids[i] = ids[j] => i = j
